@@ -1,7 +1,7 @@
 //! `sync::atomic_waker::pair()` scenarios: register / wake / close.
 
 use crate::{
-    exec::{block_on_poll, spin_limit, spin_until, spin_yield, Rendezvous, Task},
+    exec::{await_published, block_on_poll, spin_limit, spin_until, spin_yield, Ack, Rendezvous, Task},
     monitor::{Ev, ThreadLog, Verdict},
     Body, Env, Runner, Scenario,
 };
@@ -20,6 +20,8 @@ struct Cfg {
     close_only: bool,
     /// both sides register and drop together
     both_drop: bool,
+    /// the notifier waits (bounded) after each wake() until the waiter has seen the round
+    ack: bool,
 }
 
 fn waiter(cfg: Cfg, mut h: Handle, flag: &AtomicU64, meet: &Rendezvous, me: &Task, log: &mut ThreadLog) {
@@ -107,6 +109,19 @@ fn notifier(cfg: Cfg, h: Handle, flag: &AtomicU64, meet: &Rendezvous, me: &Task,
             h.wake();
             me.publish(round);
             log.ev(Ev::Push(round as u32, round as u32 + 1));
+            if cfg.ack {
+                match await_published(peer, round) {
+                    Ack::Progressed => log.add("acks", 1),
+                    Ack::LostWakeup => {
+                        log.fact("lost_wakeup", round);
+                        break;
+                    }
+                    Ack::Slow => {
+                        log.fact("ack_slow", round);
+                        break;
+                    }
+                }
+            }
         }
     }
     gate(log);
@@ -153,7 +168,18 @@ fn run_cfg(name: &'static str, env: &Env, runner: &mut Runner, cfg: Cfg) {
                 "notifier saw is_open() == false while the waiter still holds its handle".into(),
             );
         }
-        if !cfg.close_only && wl.facts.get("seen").copied().unwrap_or(0) != cfg.rounds {
+        if let Some(t) = nl.facts.get("lost_wakeup") {
+            v.fail(
+                "lost-wakeup",
+                format!("round {t} was published and wake() called, the waiter stayed parked with no wake-up latched beyond the bound"),
+            );
+        }
+        if let Some(t) = nl.facts.get("ack_slow") {
+            runner.summary.inconclusive.push(format!(
+                "{name} seed={} iter={}: waiter did not see round {t} within the bound but was runnable", env.seed, env.iter));
+        }
+        let bailed = nl.facts.contains_key("lost_wakeup") || nl.facts.contains_key("ack_slow");
+        if !cfg.close_only && !bailed && wl.facts.get("seen").copied().unwrap_or(0) != cfg.rounds {
             v.fail(
                 "lost-notification",
                 format!("waiter finished having seen round {:?} of {}", wl.facts.get("seen"), cfg.rounds),
@@ -180,6 +206,24 @@ fn wake(name: &'static str, env: &Env, r: &mut Runner) {
             swap: g.chance(1, 2),
             close_only: false,
             both_drop: false,
+            ack: false,
+        },
+    )
+}
+
+fn ack(name: &'static str, env: &Env, r: &mut Runner) {
+    let mut g = env.rng();
+    run_cfg(
+        name,
+        env,
+        r,
+        Cfg {
+            rounds: g.range(2, env.scale(4, 8)),
+            gate_on_parked: false,
+            swap: g.chance(1, 2),
+            close_only: false,
+            both_drop: false,
+            ack: true,
         },
     )
 }
@@ -196,6 +240,7 @@ fn close(name: &'static str, env: &Env, r: &mut Runner) {
             swap: g.chance(1, 2),
             close_only: true,
             both_drop: false,
+            ack: false,
         },
     )
 }
@@ -212,6 +257,7 @@ fn both_drop(name: &'static str, env: &Env, r: &mut Runner) {
             swap: g.chance(1, 2),
             close_only: false,
             both_drop: true,
+            ack: false,
         },
     )
 }
@@ -219,6 +265,7 @@ fn both_drop(name: &'static str, env: &Env, r: &mut Runner) {
 pub fn scenarios() -> Vec<Scenario> {
     vec![
         Scenario { name: "waker_wake", about: "flag + wake() rounds against check/register/re-check, then poll_close", run: wake },
+        Scenario { name: "waker_ack", about: "each flag+wake() round must be seen by the waiter before the next one (strict no-lost-wake-up)", run: ack },
         Scenario { name: "waker_close", about: "poll_close() against the peer handle being dropped", run: close },
         Scenario { name: "waker_both_drop", about: "both handles dropped together with a waker registered", run: both_drop },
     ]
